@@ -43,18 +43,18 @@ var featureSrc = map[string]string{
 	"method_value":             "func (a A) M1() {}\n",
 	"method_pointer":           "func (a *A) M2() {}\n",
 	// methods declared through an alias of the type / of the pointer to it are methods of the type all the same
-	"method_alias_value":       "type AV = A\n\nfunc (a AV) M3() {}\n",
-	"method_alias_pointer":     "type AP = *A\n\nfunc (a AP) M4() {}\n",
-	"generic_method_value":     "func (g G[T]) GM1() T { return g.V }\n",
-	"generic_method_pointer":   "func (g *G[T]) GM2() {}\n",
-	"grouped_types":            "type (\n\tX int\n\tY string\n)\n\nfunc (X) MX() {}\n\nfunc (y *Y) MY() {}\n",
-	"pkg_alias":                "type AL = int\n",
-	"imports_chain":            "var _ h1.H\n",
-	"init_func":                "func init() {}\n\nfunc init() {}\n",
-	"blank_func":               "func _() {}\n",
-	"interface_type":           "type I interface{ IM() }\n",
-	"grouped_consts":           "const (\n\tK1 = iota\n\tK2\n)\n",
-	"local_alias_shadow":       "func fLA() {\n\ttype A = int\n\tvar _ A\n}\n",
+	"method_alias_value":     "type AV = A\n\nfunc (a AV) M3() {}\n",
+	"method_alias_pointer":   "type AP = *A\n\nfunc (a AP) M4() {}\n",
+	"generic_method_value":   "func (g G[T]) GM1() T { return g.V }\n",
+	"generic_method_pointer": "func (g *G[T]) GM2() {}\n",
+	"grouped_types":          "type (\n\tX int\n\tY string\n)\n\nfunc (X) MX() {}\n\nfunc (y *Y) MY() {}\n",
+	"pkg_alias":              "type AL = int\n",
+	"imports_chain":          "var _ h1.H\n",
+	"init_func":              "func init() {}\n\nfunc init() {}\n",
+	"blank_func":             "func _() {}\n",
+	"interface_type":         "type I interface{ IM() }\n",
+	"grouped_consts":         "const (\n\tK1 = iota\n\tK2\n)\n",
+	"local_alias_shadow":     "func fLA() {\n\ttype A = int\n\tvar _ A\n}\n",
 	// a module that a replace directive maps to a sibling directory, and a sub-package of it
 	"imports_replaced": "var _ dep.D\n\nvar _ depsub.DS\n",
 	// local types named like package-level types that have methods (plain and generic)
